@@ -22,6 +22,8 @@ func main() {
 	switch os.Args[1] {
 	case "ops":
 		opsCmd(os.Args[2:])
+	case "data":
+		dataCmd(os.Args[2:])
 	case "walk":
 		walkCmd(os.Args[2:])
 	case "check":
@@ -59,6 +61,15 @@ func checkCmd(args []string) int {
 		return 2
 	}
 	start := time.Now()
+	limit := 10 * time.Minute
+	if *tier == "thorough" {
+		limit = 3 * time.Hour
+	}
+	go func() {
+		time.Sleep(limit)
+		fmt.Printf("UNDECIDED property=%s wall-clock limit %v exceeded (analysis did not finish)\n", *prop, limit)
+		os.Exit(2)
+	}()
 	rep := core.NewReport(*prop, *tier)
 	known, kerr := core.LoadKnownFindings(*verif + "/known_findings.jsonl")
 	if kerr != nil {
@@ -184,4 +195,53 @@ func walkCmd(args []string) {
 	}
 	fmt.Println(seen)
 	fmt.Printf("programs=%d gradchecks=%d statechecks=%d closures=%d wall=%v\n", st.Programs, st.GradChecks, st.StateChecks, st.ClosureRuns, time.Since(t0))
+}
+
+func dataCmd(args []string) {
+	fs := flag.NewFlagSet("data", flag.ExitOnError)
+	repo := fs.String("repo", "/repo", "repo")
+	m := fs.String("m", "", "method")
+	thorough := fs.Bool("thorough", false, "")
+	verbose := fs.Bool("v", false, "")
+	fs.Parse(args)
+	t0 := time.Now()
+	p, err := core.Load(*repo)
+	if err != nil {
+		fmt.Println("load error:", err)
+		os.Exit(2)
+	}
+	a, err := spec.ResolveAnchors(p)
+	if err != nil {
+		fmt.Println("anchors:", err)
+		os.Exit(2)
+	}
+	e := engine.NewOpEngine(p, a)
+	e.SetDataMode(true)
+	b := engine.QuickDataBounds()
+	if *thorough {
+		b = engine.ThoroughDataBounds()
+	}
+	calls := e.DataInstances(func(n string) bool { return *m == "" || *m == n }, b)
+	fmt.Println("instances", len(calls))
+	for _, c := range calls {
+		nb := len(e.Findings)
+		t1 := time.Now()
+		e.RunDataInstance(c)
+		if *verbose || time.Since(t1) > 2*time.Second {
+			fmt.Printf("  %-60s findings=%d %v\n", c.Label, len(e.Findings)-nb, time.Since(t1))
+		}
+	}
+	seen := map[string]int{}
+	for _, f := range e.Findings {
+		k := f.Rule + "|" + f.Construct + "|" + f.What
+		if f.Undecided {
+			k = "UNDECIDED " + k
+		}
+		if seen[k] == 0 {
+			fmt.Printf("%s\n    %s %s\n    witness: %s\n", k, f.Pos, f.Detail, f.Witness)
+		}
+		seen[k]++
+	}
+	fmt.Println(seen)
+	fmt.Printf("paths=%d elements=%d wall=%v\n", e.Paths, e.ElemChecks, time.Since(t0))
 }
